@@ -2018,6 +2018,81 @@ pub fn arrival_order_check() -> Result<(u64, Vec<(String, String)>), String> {
     Ok((runs, problems))
 }
 
+/// Release with a debugging copy of the output that cannot be written (no kernel model: real system calls): the
+/// terminal duplicates its output into `/dev/full` (every write to it fails with ENOSPC) or into `/dev/null`, a
+/// little output is written, the terminal is released. Whatever the copy does, the line settings must be those found
+/// at open time. Returns (runs, problems).
+pub fn tee_release_check() -> Result<(u64, Vec<(String, String)>), String> {
+    use std::sync::atomic::{AtomicBool, Ordering};
+    use std::sync::Arc;
+    prepare_process();
+    let mut problems = vec![];
+    let mut runs = 0u64;
+    for (tee, amount) in [("/dev/full", 5usize), ("/dev/full", 20_000), ("/dev/null", 5)] {
+        let (master, slave) = open_pty()?;
+        let slave_dup = unsafe { libc::dup(slave.as_raw_fd()) };
+        let saved = termios_of(slave_dup).ok_or("tcgetattr on the pty failed")?;
+        let stop = Arc::new(AtomicBool::new(false));
+        let mfd = master.as_raw_fd();
+        let peer = {
+            let stop = stop.clone();
+            std::thread::spawn(move || {
+                let mut buf = vec![0u8; 65536];
+                let mut tail: Vec<u8> = vec![];
+                loop {
+                    let mut p = libc::pollfd { fd: mfd, events: libc::POLLIN, revents: 0 };
+                    let r = unsafe { libc::poll(&mut p, 1, 10) };
+                    if r > 0 && (p.revents & libc::POLLIN) != 0 {
+                        let n = unsafe { libc::read(mfd, buf.as_mut_ptr() as *mut libc::c_void, buf.len()) };
+                        if n > 0 {
+                            tail.extend_from_slice(&buf[..n as usize]);
+                            while let Some(pos) = tail.windows(3).position(|w| w == b"\x1b[c") {
+                                tail.drain(..pos + 3);
+                                let reply = b"\x1b[?62;c";
+                                unsafe { libc::write(mfd, reply.as_ptr() as *const libc::c_void, reply.len()) };
+                            }
+                            let keep = tail.len().min(2);
+                            tail.drain(..tail.len() - keep);
+                            continue;
+                        }
+                    }
+                    if stop.load(Ordering::SeqCst) {
+                        break;
+                    }
+                    if r > 0 && (p.revents & (libc::POLLHUP | libc::POLLERR)) != 0 {
+                        std::thread::sleep(Duration::from_millis(1));
+                    }
+                }
+            })
+        };
+        {
+            let mut term = SystemTerminal::new_from_fd(slave).map_err(|e| format!("{e:?}"))?;
+            let _ = term.duplicate_output(tee);
+            let mut counter = 0u32;
+            let _ = term.write_all(&payload(&mut counter, amount));
+            for _ in 0..50 {
+                let _ = term.poll(Some(Duration::from_millis(1)));
+                if term.frames_pending() == 0 {
+                    break;
+                }
+            }
+        }
+        runs += 1;
+        std::thread::sleep(Duration::from_millis(3));
+        if termios_of(slave_dup).as_ref() != Some(&saved) {
+            problems.push((
+                "release:termios-with-output-copy".to_string(),
+                format!("a terminal that duplicates its output into {tee} wrote {amount} bytes and was released: the line settings of the tty are not those found when it was opened"),
+            ));
+        }
+        unsafe { libc::close(slave_dup) };
+        stop.store(true, Ordering::SeqCst);
+        let _ = peer.join();
+        drop(master);
+    }
+    Ok((runs, problems))
+}
+
 /// Descriptor placements (no kernel model: real system calls). The caller of `new_from_fd` decides which
 /// descriptor number the tty has; the numbers of the descriptors the terminal allocates afterwards (signal pipe,
 /// waker pipe) depend on which numbers are free. All placements of a small family are run: the tty below / above
